@@ -1,9 +1,9 @@
 (** Dispatcher used by generated case files. *)
 From VG Require Export Corr.Base.
-From VG Require Import Corr.CorrTimeout Corr.CorrLeaf Corr.CorrRouter Corr.CorrReader Corr.CorrServe.
+From VG Require Import Corr.CorrTimeout Corr.CorrLeaf Corr.CorrRouter Corr.CorrReader Corr.CorrServe Corr.CorrResponse.
 Open Scope Z_scope.
 
-Definition runners : list runner := [run_timeout; run_leaf; run_router; run_reader; run_serve].
+Definition runners : list runner := [run_timeout; run_leaf; run_router; run_reader; run_serve; run_response].
 Definition monitors : list monitor_t := [mon_timeout; mon_leaf; mon_router].
 
 Definition run (suite : bytes) (i : V) : option V := first_some (map (fun r => r suite i) runners).
